@@ -75,7 +75,8 @@ def main():
         print(f"test suite with the change: {last}")
         ok = rc0 == 0 and rc1 != 0 and ("143 passed" in last and "7 failed" in last)
         print("CONFIRMED" if ok else "NOT CONFIRMED")
-        shutil.rmtree(BASE, ignore_errors=True)
+        shutil.rmtree(d, ignore_errors=True)
+        shutil.rmtree(d2, ignore_errors=True)
         return 0 if ok else 1
     if cmd == "detect":
         props = sys.argv[3:] or ([meta["property"]] if isinstance(meta["property"], str) else meta["property"])
@@ -95,7 +96,7 @@ def main():
             print(f"{sid} vs {p}: rc={r.returncode} {'DETECTED ' + vio[0][:220] if vio else 'not detected'}")
             if r.returncode == 3:
                 print("   harness:", r.stderr[-600:])
-        shutil.rmtree(BASE, ignore_errors=True)
+        shutil.rmtree(d, ignore_errors=True)
         json.dump(res, open(os.path.join(sdir, "detection.json"), "w"), indent=1)
         return 0
     raise SystemExit("unknown command")
